@@ -224,7 +224,7 @@ pub(crate) fn selected_sheet_after_delete(selected: u32, deleted: u32, sheet_cou
     if selected > deleted {
         return selected - 1;
     }
-    if selected == deleted && selected > 0 && selected + 1 >= sheet_count {
+    if selected == deleted && selected > 0 && (sheet_count == 0 || selected >= sheet_count - 1) {
         return selected - 1;
     }
     selected
